@@ -6,7 +6,8 @@
    of the SDK modules it calls (x/staking: Delegate, ValidateUnbondAmount, InstantUndelegate/Unbond and the
    validator share arithmetic of types/validator.go; x/bank: supply and supply offset of the bond denom).
 
-   NOT modelled (see SCOPE in props/c11.py): slash.go (no slashing), staking unbonding queue / validator
+   NOT modelled (see SCOPE in props/c11.py): slashing inside the theorem scope (the function [slash] below mirrors slash.go
+   for gamm-share locks and is tied to the code by the correspondence run only), staking unbonding queue / validator
    status changes (validators stay bonded), distribution rewards and gauges, LP-token balances of owners,
    removal of superfluid assets, governance parameter changes, LegacyDec range panics.
 
@@ -537,6 +538,52 @@ Definition force_unlock (cfg : config) (st : state) (sender id : Z) : result sta
       do st1 <- (if l_end l =? 0 then do x <- begin_unlock st id None; Ok (fst x) else Ok st);
       Ok (del_lock st1 id)
     end
+  end.
+
+(* ---- slashing (environment transition; NOT part of [op]: the theorems of Properties/C11.v are about histories without
+   slashing, the correspondence run also covers this function) ----
+   x/staking Slash(validator v, infraction height = now, power = current consensus power, slashFactor) with the superfluid
+   hook BeforeValidatorSlashed -> SlashLockupsForValidatorSlash (slash.go) -> lockup SlashTokensFromLockByID. *)
+Definition power_reduction : Z := 1000000.
+
+(* slashSynthLock for a gamm-share lock: amount * factor truncated leaves the lock (to the community pool) and the
+   accumulator of its synthetic denom; a failure inside ApplyFuncIfNoError (nothing to slash, more than the lock) changes nothing *)
+Definition slash_lock (st : state) (id d v factor : Z) : state :=
+  match s_locks st id with
+  | Some l =>
+    if negb (l_denom l =? d) then st else
+    if negb (existsb (fun y => synth_is Staking d v y || synth_is Unstaking d v y) (s_synths st id)) then st else
+    let s := d_truncate_int (d_mul (d_from_int (l_amt l)) factor) in
+    if (s <=? 0) || (l_amt l <? s) then st else
+    match synth_by_lock st id with
+    | Ok (Some y) =>
+      let st1 := put_lock st id (mkLock (l_owner l) (l_denom l) (l_amt l - s) (l_dur l) (l_end l)) in
+      set_accum st1 (upd3 (s_accum st1) (y_kind y) (y_denom y) (y_val y) (s_accum st1 (y_kind y) (y_denom y) (y_val y) - s))
+    | _ => st
+    end
+  | None => st
+  end.
+
+Definition slash_account (st : state) (k : Z * Z) (factor : Z) : state :=
+  if negb (mem_pair k (s_accs st)) then st else
+  fold_left (fun s id => slash_lock s id (fst k) (snd k) factor) (ids_upto (s_last st)) st.
+
+Definition slash (st : state) (order : list (Z * Z)) (v factor : Z) : result state :=
+  match s_vals st v with
+  | None => Ok st
+  | Some val =>
+    if factor <? 0 then Err EOther else
+    let power := Z.quot (v_tokens val) power_reduction in                       (* the driver slashes at the current power *)
+    let slash_amount := d_truncate_int (d_mul (d_from_int (power * power_reduction)) factor) in
+    let burn := Z.max 0 (Z.min slash_amount (v_tokens val)) in
+    if burn =? 0 then Ok st else
+    let eff := if 0 <? v_tokens val then Z.min P18 (d_quo_round_up (d_from_int burn) (d_from_int (v_tokens val))) else 0 in
+    (* BeforeValidatorSlashed: every intermediary account of the validator, in store order *)
+    let accs := filter (fun k => snd k =? v) (order ++ filter (fun k => negb (mem_pair k order)) (s_accs st)) in
+    let st1 := if eff =? 0 then st else fold_left (fun s k => slash_account s k eff) accs st in
+    (* RemoveValidatorTokens, burnBondedTokens *)
+    let st2 := set_vals st1 (upd1 (s_vals st1) v (Some (mkVal (v_tokens val - burn) (v_shares val)))) in
+    Ok (set_bank st2 (s_supply st2 - burn) (s_offset st2) (s_bonded st2 - burn))
   end.
 
 (* ---- operations ---- *)
